@@ -472,6 +472,37 @@ Print Assumptions C16_refused_grid_untouched_3d.
 Example C16_example_refused : shape_ok2 (mkShape2 true false 1 3 1%R 1%R) = false /\ shape_ok2 sh22 = true.
 Proof. split; reflexivity. Qed.
 
+(* PMFs that are NOT kept up to date incrementally - the LOCAL PMF of a shared-ABF walker, the CZAR PMF - are written by
+   write_gradients_samples as  set_div(); integrate():  for ANY state of the grids and ANY previous content of the divergence
+   array (after a restart it is the zero array of a fresh object) the Poisson statement holds for the divergence D of the
+   gradients that are written beside the surface.  (Without the set_div() the right-hand side would be whatever the array
+   held: seeded change C16_5, caught by the shared-ABF restart scenarios.) *)
+Theorem C16_batch_written_pmf_2d : forall (sc : smooth_cfg) (sm : bool) (sh : shape2 (T:=R)) (st : state2 (T:=R))
+    (itmax : nat) (tol : R) (x0 : Z * Z -> R) (err0 : R),
+  (0 < nxg sh)%Z -> (0 < nyg sh)%Z ->
+  let D := div_value2 Rops sc sm sh st in
+  let o := snd (write_pmf_batch2 Rops sc sm sh st itmax tol x0 err0) in
+  lsumR D (all_ix2 sh) = 0%R /\
+  ((1 <= out_iter _ o)%Z -> (out_err _ o <= tol)%R ->
+     (l2norm Rops _ (all_ix2 sh) (fun p => (D p - atimes2 Rops sh (out_x _ o) p)%R) <= tol * l2norm Rops _ (all_ix2 sh) D)%R) /\
+  ((1 <= out_iter _ o)%Z -> out_err _ o = 0%R -> forall p, in_pmf2 sh p -> atimes2 Rops sh (out_x _ o) p = D p) /\
+  ((1 <= out_iter _ o < Z.of_nat itmax)%Z -> (out_err _ o <= tol)%R \/ out_err _ o = 0%R).
+Proof. exact write_pmf_batch2_poisson. Qed.
+Print Assumptions C16_batch_written_pmf_2d.
+
+Theorem C16_batch_written_pmf_3d : forall (sc : smooth_cfg) (sm : bool) (sh : shape3 (T:=R)) (st : state3 (T:=R))
+    (itmax : nat) (tol : R) (x0 : Z * Z * Z -> R) (err0 : R),
+  (0 < mxg sh)%Z -> (0 < myg sh)%Z -> (0 < mzg sh)%Z ->
+  let D := div_value3 Rops sc sm sh st in
+  let o := snd (write_pmf_batch3 Rops sc sm sh st itmax tol x0 err0) in
+  lsumR D (all_ix3 sh) = 0%R /\
+  ((1 <= out_iter _ o)%Z -> (out_err _ o <= tol)%R ->
+     (l2norm Rops _ (all_ix3 sh) (fun p => (D p - atimes3 Rops sh (out_x _ o) p)%R) <= tol * l2norm Rops _ (all_ix3 sh) D)%R) /\
+  ((1 <= out_iter _ o)%Z -> out_err _ o = 0%R -> forall p, in_pmf3 sh p -> atimes3 Rops sh (out_x _ o) p = D p) /\
+  ((1 <= out_iter _ o < Z.of_nat itmax)%Z -> (out_err _ o <= tol)%R \/ out_err _ o = 0%R).
+Proof. exact write_pmf_batch3_poisson. Qed.
+Print Assumptions C16_batch_written_pmf_3d.
+
 (* non-vacuity of (2) and (3): on the 2x2 (2x2x2) grid of a single non-periodic bin per dimension the solver makes
    one iteration and reports err = 0 for a right-hand side that is an eigenvector of the Laplacian *)
 Example C16_example_cg_2d : let o := integrate2 Rops sh22 1 0%R b22 (fun _ => 0%R) 0%R in
